@@ -8,7 +8,7 @@
 (*   "var"    magic scalar activated as the k-th independent variable      *)
 (*            (Variables(order, x_1..x_n)); content X(k)                   *)
 (*   "tmp"    magic scalar used as receiver / temporary, REUSED across     *)
-(*            steps; initial content 0                                     *)
+(*            steps; initial content 0; may be RE-ACTIVATED as a variable  *)
 (*   "const"  ConstFloat64 operand, "plain" Float64 operand (non-magic),   *)
 (*   "magic0" magic scalar that was never activated (order 0);             *)
 (*            content a constant term                                      *)
@@ -182,14 +182,14 @@ Call(op, r, a, b, p) == [op |-> op, r |-> r, a |-> a, b |-> b, p |-> p]
 RECURSIVE AddNew(_, _)
 AddNew(g, ts) == IF ts = <<>> THEN g
                  ELSE LET t == Head(ts)
-                          g1 == IF IsConst(t) \/ t[1] = "x" \/ (\E k \in 1..Len(g) : g[k] = t) THEN g ELSE Append(g, t)
+                          g1 == IF IsConst(t) \/ t[1] = "x" \/ t[1] = "z" \/ (\E k \in 1..Len(g) : g[k] = t) THEN g ELSE Append(g, t)
                       IN AddNew(g1, Tail(ts))
 LocalPartials(M, m) ==
   LET f == [k \in 1..m |-> D(M, 100 + k)] IN
   IF m = 1 THEN <<f[1], D(f[1], 101)>>
   ELSE IF m = 2 THEN <<f[1], f[2], D(f[1], 101), D(f[1], 102), D(f[2], 102)>>
   ELSE f \o [k \in 1..m |-> D(f[k], 100 + k)]
-Relevant(ts) == SelectSeq(ts, LAMBDA t : ~IsConst(t) /\ t[1] # "x")
+Relevant(ts) == SelectSeq(ts, LAMBDA t : ~IsConst(t) /\ t[1] # "x" /\ t[1] # "z")
 GuardOf(M, ops) == LET ts == Relevant(LocalPartials(M, Len(ops)))
                    IN AddNew(guard, [k \in 1..Len(ts) |-> Subst(ts[k], ops)])
 
@@ -219,6 +219,21 @@ Binary(op, r, a, b) ==
 Param(op, pn, pd, r, a) ==
   Store(r, MeaningP(op, Rat(pn, pd), reg[a]), MeaningP(op, Rat(pn, pd), dev[a]),
         GuardOf(MeaningP(op, Rat(pn, pd), Loc(1, a)), <<reg[a]>>), Call(op, r, <<a>>, <<>>, <<pn, pd>>))
+
+(* RE-ACTIVATION.  After any prefix of calls a temporary (holding a result of    *)
+(* order 0, or of the program's order in n variables, or nothing yet) is         *)
+(* declared variable i of n again: SetVariable(i, n, order), Variables(order) on  *)
+(* a list containing it, or ResetDerivatives + SetDerivative(i, 1) (the driver    *)
+(* runs all three).  The contract: the value is kept, the gradient is the unit    *)
+(* vector e_i, the Hessian is zero - the register is a fresh leaf that shares     *)
+(* the derivative slot of variable i; nothing of the result it held may survive.  *)
+Activate(r, i) ==
+  /\ reg'  = [reg EXCEPT ![r] = Z(i, Len(hist) + 1)]
+  /\ dev'  = [dev EXCEPT ![r] = Z(i, Len(hist) + 1)]
+  /\ guard' = guard
+  /\ flow' = [flow EXCEPT ![r] = {i}]
+  /\ hist' = Append(hist, Call("Activate", r, <<>>, <<>>, <<i>>))
+  /\ UNCHANGED <<fam, n, desc>>
 
 (* reductions: the vector / matrix is built from copies of operand registers *)
 VecReduce(op, r, s, t, alpha) ==
@@ -267,6 +282,7 @@ Init == /\ fam \in Fams
 Next ==
   /\ More
   /\ \E r \in Receivers :
+       \/ \E i \in Vars : Activate(r, i)
        \/ \E op \in UnOpsNow, a \in Operands(r) : Unary(op, r, a)
        \/ \E op \in BinOpsNow, a \in Operands(r), b \in Operands(r) : Binary(op, r, a, b)
        \/ \E q \in ParOpsNow, a \in Operands(r) : Param(q[1], q[2], q[3], r, a)
